@@ -65,7 +65,8 @@ claim("C04", "other",
 claim("C18", "other",
       "svd_qn / eigh_qn glue (gather block, decompose, scatter, relabel, global sort) on fully symbolic coefficient matrices with every label pattern over {0,1} up to 3x2/2x3 "
       "(thorough 3x3, 2x4) plus symbolic-integer and two-component labels: orthonormal columns, product = allowed part of the input, column support matches returned label, "
-      "labels add to qntot, sortedness, ValueError iff no block. Krylov: Lanczos structure for n=2 only.",
+      "labels add to qntot, sortedness, ValueError iff no block. Krylov: Lanczos structure (exact orthonormality and tridiagonal projection for n=2, zero-divisor fork), "
+      "and float-build runs for every (matrix dtype, start-vector dtype, dt kind) at sizes where the Krylov space is the full space (result = expm(dt A) v to 1e-8).",
       "LAPACK by contract. The Krylov accuracy claim (float convergence to tolerance) is NOT covered - see not-applicable parts in DESIGN.md section 2.",
       "symbolic execution with LAPACK contract stubs (symbolic labels fork lazily) + z3",
       "DESIGN.md section 1, C18")
@@ -92,7 +93,8 @@ claim("C16", "other",
       "BasisSHO.op_mat executed with symbolic omega>0 and origin x0 and exact algebraic sqrt(n): commutator, ladder relations, every product symbol vs the written-order "
       "matrix product, powers vs k-fold products away from the truncation edge, shifted origin; spin/electron/multi-electron/HOPS matrices with symbolic factors; "
       "HolsteinModel (schemes 1-4, open/periodic, scalar coupling and an explicit non-symmetric coupling matrix with independent symbolic entries), SpinBosonModel, TI1DModel "
-      "term lists evaluated densely with symbolic couplings against the documentation formula.",
+      "term lists evaluated densely with symbolic couplings against the documentation formula (TI1D also with an electron + shifted-oscillator unit cell); BasisSet.copy of every "
+      "basis class keeps every local matrix.",
       "BasisSineDVR and the LAPACK-defined DVR rotation are NOT covered (transcendental integrals / eigh); odd general powers carry a float constant and are only tied "
       "numerically; Holstein frequencies concrete.",
       "symbolic execution with exact algebraic square-root atoms + z3 (QF_NRA)",
@@ -129,8 +131,10 @@ claim("C01", "other",
       "The real MPO construction pipeline (Op -> table -> dedup -> Hopcroft-Karp / Hungarian / QR decomposition -> numeric site tensors -> todense) with every term factor and "
       "the offset symbolic; models and table structures enumerated (2-3 sites quick, 4 thorough; spin, electron, oscillator incl. shifted origin, multi-DoF site; duplicate "
       "rows, repeated symbols, constant terms); adjacent swaps and two-swap sequences through try_swap_site. Obligations: dense identity for all factor values, label invariant, "
-      "operator charge, bond dimension = maximum matching at every cut.",
-      "Table structure/model enumerated, not symbolic; pivoted QR by contract (permutation and rank solver-chosen, float-tolerance band excluded); real factors in quick.",
+      "operator charge, bond dimension = maximum matching at every cut. Float-build instances with complex coefficients, duplicate rows and an identity term next to an offset "
+      "(what dtype the merged table gets is invisible on the object backend).",
+      "Table structure/model enumerated, not symbolic; pivoted QR by contract (permutation and rank solver-chosen, float-tolerance band excluded) for sites + terms <= 5; real "
+      "factors in quick.",
       "symbolic execution of the real construction code on z3-valued factors + contract stub for pivoted QR + z3",
       "DESIGN.md section 1, C01")
 
@@ -170,7 +174,8 @@ claim("C10", "other",
       "Imaginary-time propagation-and-compression steps (Taylor, RK4, general RK) of Mps and MpDm with symbolic tau = integrator image before normalisation; normalize() kinds; "
       "Mpo.exact_propagator with symbolic x and shift (exp uninterpreted): site tensors, scalar placement, labels, EX-space tensors per mode against the eigenpairs of that "
       "mode's own Hamiltonian (numeric coefficients 1e-9; modes sharing a frequency but not the displacement); Mps/MpDm.evolve_exact with symbolic prefactor, time step and "
-      "non-zero symbolic energy offset: the offset phase cancels (only cos^2+sin^2=1 used), result carries it, input untouched; MpDm.max_entangled_gs.",
+      "non-zero symbolic energy offset: the offset phase cancels (only cos^2+sin^2=1 used), result carries it, input untouched; MpDm.max_entangled_gs; one ThermalProp step: "
+      "the step Hamiltonian is built from h_mpo_model with the last energy as offset and handed to evolve with the given step.",
       "NOT covered: convergence of many imaginary-time steps to the Gibbs state, ThermalProp averages (float iteration limits). canonicalise/compress identity stubs (C04/C05).",
       "symbolic execution with uninterpreted exp/cos/sin and a stated trigonometric lemma + z3",
       "DESIGN.md section 1, C10")
@@ -193,10 +198,11 @@ claim("C11", "other",
 
 claim("C12", "other",
       "PARTIAL (algebraic core only). On enumerated trees with symbolic node/operator tensors and symbolic tau: tree propagation-and-compression (real and imaginary time) = "
-      "4th-order Taylor polynomial of the dense operator, also for the linear tree against the chain's dense operator; hop_expr0/1/2 = projection of H psi on every tangent "
+      "4th-order Taylor polynomial of the dense operator (and evolve(normalize=...) normalises never / exactly once with the right kind), also for the linear tree against the "
+      "chain's dense operator; hop_expr0/1/2 = projection of H psi on every tangent "
       "direction; TTNEnviron incremental updates = fresh environments; the REAL one- and two-site projector-splitting sweeps with the local Krylov propagator replaced by an "
       "arbitrary-output contract stub: effective operator at every local step = projection of H on the state as it is at that step, local steps +-tau/2 summing to tau per node and "
-      "-tau per bond, identity propagator => state unchanged.",
+      "-tau per bond, identity propagator => state unchanged; two-site scheme with non-uniform per-node bond limits: every bond obeys the limit of its own node.",
       "NOT claimed: accuracy orders, norm/energy conservation, variable-mean-field scheme (Krylov / solve_ivp / regularised inversion are float iterations outside the family); "
       "sector conservation rests on C11/C06 label handling; canonicalise/compress are identity stubs in the P&C harness (C11 shows they preserve the vector).",
       "symbolic execution of the real tree evolution code with Krylov/LAPACK contract stubs + independent einsum oracle + z3",
